@@ -75,6 +75,10 @@ fn main() {
 				}
 			}
 		}
+		"mk-splitter-artefacts" => {
+			init_ctx("C06", "fault_enumeration", Tier::Quick, true);
+			checks::c06::write_splitter_artefacts(args.get(2).map(|s| s.as_str()).unwrap_or("."));
+		}
 		"selfcheck" => {
 			println!("model self-check ok; virtual clock ok");
 		}
@@ -92,6 +96,56 @@ fn main() {
 			if !checks::run(prop) {
 				eprintln!("machinery: unknown property {}", prop);
 				std::process::exit(2);
+			}
+		}
+	}
+}
+
+
+#[cfg(test)]
+mod regressions {
+	//! Plain unit tests that replay the recorded findings without the explorer.
+	use super::*;
+
+	fn run_artefact(path: &std::path::Path) -> Option<Viol> {
+		let v: serde_json::Value = serde_json::from_str(&std::fs::read_to_string(path).unwrap()).unwrap();
+		let prop: &'static str = Box::leak(v["property"].as_str().unwrap().to_string().into_boxed_str());
+		init_ctx(prop, checks::level(prop), Tier::Quick, true);
+		let f = checks::oracle_by_name(v["oracle"].as_str().unwrap()).expect("oracle");
+		let input = unhex(v["input_hex"].as_str().unwrap_or(""));
+		let p = P::from_json(&v["params"]);
+		f(&input, &p).viol
+	}
+
+	fn artefacts(sub: &str) -> Vec<std::path::PathBuf> {
+		let mut v: Vec<_> = std::fs::read_dir(format!("{}/findings/{}", verif_home(), sub)).unwrap().filter_map(|e| e.ok()).map(|e| e.path()).filter(|p| p.extension().map_or(false, |e| e == "json")).collect();
+		v.sort();
+		v
+	}
+
+	/// every repaired finding stays repaired (deep-metadata runs in-process here: with the fix it returns Err)
+	#[test]
+	fn fixed_findings_stay_fixed() {
+		install_panic_hook();
+		let mut bad = vec![];
+		for a in artefacts("fixed") {
+			// the process-wide context can only be initialised once; violations only need the oracle's verdict
+			if let Some(v) = run_artefact(&a) {
+				bad.push(format!("{}: {}", a.display(), v.msg));
+			}
+		}
+		assert!(bad.is_empty(), "regressed findings:\n{}", bad.join("\n"));
+	}
+
+	/// every open finding is still observed with exactly its recorded key
+	#[test]
+	fn open_findings_are_still_observed() {
+		install_panic_hook();
+		let known: Vec<String> = load_known().into_iter().map(|k| k.key).collect();
+		for a in artefacts("open") {
+			match run_artefact(&a) {
+				Some(v) => assert!(known.contains(&v.key), "{}: observed key {} is not a listed known finding", a.display(), v.key),
+				None => panic!("{}: the open finding is no longer observed - move it to fixed", a.display()),
 			}
 		}
 	}
